@@ -128,6 +128,17 @@ pub mod tempfile {
         }
 
         #[verifier::external_body]
+        pub fn as_file_mut(&mut self) -> (r: &mut std::fs::File)
+            ensures
+                r.ino() == old(self).ino(),
+                r.can_write(),
+                final(self).ino() == old(self).ino(),
+                final(self).pathv() == old(self).pathv(),
+        {
+            unimplemented!()
+        }
+
+        #[verifier::external_body]
         pub fn into_parts(self) -> (r: (std::fs::File, TempPath))
             ensures
                 r.0.ino() == self.ino(),
@@ -137,4 +148,93 @@ pub mod tempfile {
             unimplemented!()
         }
     }
+
+    /// What creating an anonymous temporary file does: a fresh, empty, writable inode that no name binds.
+    pub open spec fn anon_created(old: World, fin: World, r: std::io::Result<std::fs::File>) -> bool {
+        &&& fin.inv()
+        &&& fin.kept(old) && fin.steps == old.steps + 1 && fin.opens == old.opens + 1
+        &&& fin.now == old.now && fin.listed == old.listed && fin.published == old.published && fin.supplied == old.supplied && fin.owned == old.owned
+        &&& fin.app_errors == old.app_errors
+        &&& fin.dirs == old.dirs && fin.files == old.files
+        &&& match r {
+            Ok(f) => {
+                &&& fin.hard_faults == old.hard_faults
+                &&& !old.inodes.contains_key(f.ino())
+                &&& f.can_write() && f.offset() == 0
+                &&& fin.inodes == old.inodes.insert(
+                    f.ino(),
+                    Inode { content: Seq::<u8>::empty(), writable: true, mode: 0o600, mtime: trunc(old.now, old.gran), atime: trunc(old.now, old.gran), synced: false },
+                )
+            },
+            Err(e) => fin.inodes == old.inodes && fin.hard_faults == old.hard_faults + 1,
+        }
+    }
+
+    /// tempfile::tempfile_in(dir), narrowed to the one argument type the crate uses: an anonymous (already unlinked)
+    /// file created in `dir`.  PROTOCOL (C02): like named temporary files, only inside a `.kismet_temp`.
+    #[verifier::external_body]
+    pub fn tempfile_in(dir: Cow<Path>, Tracked(w): Tracked<&mut World>) -> (r: std::io::Result<std::fs::File>)
+        requires
+            old(w).inv(),
+            old(w).is_temp_dir(cowv(dir)) && !old(w).under_ro(cowv(dir)),   // @L C02 C15 C16:temporary-files-live-in-kismet-temp
+        ensures
+            anon_created(*old(w), *final(w), r),
+    {
+        unimplemented!()
+    }
+
+    /// tempfile::tempfile(): an anonymous file in the system's temporary directory (outside every cache directory).
+    #[verifier::external_body]
+    pub fn tempfile(Tracked(w): Tracked<&mut World>) -> (r: std::io::Result<std::fs::File>)
+        requires
+            old(w).inv(),
+        ensures
+            anon_created(*old(w), *final(w), r),
+    {
+        unimplemented!()
+    }
+}
+
+// ---- application callbacks ----------------------------------------------------------------------------
+/// T1 for the `populate` callback of ensure / get_or_update: `populate(dst, old)` becomes
+/// `call_populate(populate, dst, old, Ghost(key name), Tracked(w))`.  The contract is the ASSUMPTION made about every
+/// populate function and the OBLIGATION on the code that calls it.  Obligation (C01 C13): it is handed a writable,
+/// empty file positioned at 0 that no reader can see.  Assumption: it writes only that file (and may read anything);
+/// on success what it wrote is, by definition, a value supplied for this key; any error it returns is counted in
+/// `app_errors` and leaves the file in an arbitrary state.
+#[verifier::external_body]
+pub fn call_populate<P: FnOnce(&mut std::fs::File, Option<std::fs::File>) -> ::std::io::Result<()>>(
+    populate: P,
+    dst: &mut std::fs::File,
+    old_file: Option<std::fs::File>,
+    Ghost(name): Ghost<Seq<u8>>,
+    Tracked(w): Tracked<&mut World>,
+) -> (r: ::std::io::Result<()>)
+    requires
+        old(w).inv(),
+        old(w).inodes.contains_key(old(dst).ino()),
+        old(dst).can_write(),
+        old(w).invisible(old(dst).ino()),   // @L C01 C03 C19:only-a-file-no-reader-can-see-is-ever-written
+        old(w).inodes[old(dst).ino()].content.len() == 0 && old(dst).offset() == 0,   // @L C01 C13:populate-starts-from-an-empty-file
+    ensures
+        final(w).inv(),
+        final(w).kept(*old(w)) && final(w).listed == old(w).listed && final(w).published == old(w).published && final(w).owned == old(w).owned,
+        final(w).opens == old(w).opens && final(w).steps == old(w).steps && final(w).hard_faults == old(w).hard_faults,
+        final(w).files == old(w).files && final(w).dirs == old(w).dirs,
+        final(dst).ino() == old(dst).ino() && final(dst).can_write() == old(dst).can_write(),
+        forall|i: InodeId| #[trigger] final(w).inodes.contains_key(i) <==> old(w).inodes.contains_key(i),
+        forall|i: InodeId| i != old(dst).ino() && old(w).inodes.contains_key(i) ==> #[trigger] final(w).inodes[i] == (Inode { atime: final(w).inodes[i].atime, ..old(w).inodes[i] }),
+        final(w).inodes[old(dst).ino()] == (Inode {
+            content: final(w).inodes[old(dst).ino()].content,
+            mtime: final(w).inodes[old(dst).ino()].mtime,
+            atime: final(w).inodes[old(dst).ino()].atime,
+            synced: false,
+            ..old(w).inodes[old(dst).ino()]
+        }),
+        match r {
+            Ok(()) => final(w).supplied == old(w).supplied.insert((name, final(w).inodes[old(dst).ino()].content)) && final(w).app_errors == old(w).app_errors,
+            Err(e) => final(w).supplied == old(w).supplied && final(w).app_errors == old(w).app_errors + 1,
+        },
+{
+    unimplemented!()
 }
